@@ -702,8 +702,23 @@ class Interp:
                 s2 = st.fork(); s2.bb = t["target"]; s2.idx = 0
                 stack.append((s2, False))
             elif k == "assert":
-                s2 = st.fork(); s2.bb = t["target"]; s2.idx = 0
-                stack.append((s2, False))
+                cv = self.eval_operand(st, t["cond"])
+                if cv[0] == "b":
+                    if cv[1] == t["expected"]:
+                        s2 = st.fork(); s2.bb = t["target"]; s2.idx = 0
+                        stack.append((s2, False))
+                    else:
+                        self._finish("panic", st, "assert:" + t["msg"])
+                elif cv[0] == "sym":
+                    for s2, bv in self.split_bool(st, cv):
+                        if bv == t["expected"]:
+                            s2.bb = t["target"]; s2.idx = 0
+                            stack.append((s2, False))
+                        else:
+                            self._finish("panic", s2, "assert:" + t["msg"])
+                else:
+                    s2 = st.fork(); s2.bb = t["target"]; s2.idx = 0
+                    stack.append((s2, False))
             elif k == "switch":
                 v = self.eval_operand(st, t["discr"])
                 for s2, tgt in self._switch(st, v, t):
@@ -991,9 +1006,13 @@ def m_identity(interp, st, t, args, bb):
 
 
 def m_deref(interp, st, t, args, bb):
-    # Deref/DerefMut/AsRef/Borrow on containers: the result aliases the container's content
+    # Deref/DerefMut/Index/IndexMut/as_slice on containers: the result aliases the container's content
+    # (never its length/emptiness facts)
     if args[0][0] == "ref":
-        return [(st, ("ref", args[0][1] + (("f", "<content>"),)))]
+        p = args[0][1]
+        if p and p[-1] == ("f", "<content>"):
+            return [(st, ("ref", p))]
+        return [(st, ("ref", p + (("f", "<content>"),)))]
     return None
 
 
@@ -1112,6 +1131,14 @@ DEFAULT_MODELS = {
     "core::iter::traits::collect::IntoIterator::into_iter": m_identity,
     "*::Deref>::deref": m_deref,
     "*::DerefMut>::deref_mut": m_deref,
+    "*::Index<I>>::index": m_deref,
+    "*::IndexMut<I>>::index_mut": m_deref,
+    "core::ops::index::Index::index": m_deref,
+    "core::ops::index::IndexMut::index_mut": m_deref,
+    "alloc::vec::Vec::as_mut_slice": m_deref,
+    "alloc::string::String::as_bytes": m_deref,
+    "core::str::<impl str>::as_bytes": m_deref,
+    "str::as_bytes": m_deref,
     "alloc::string::String::as_str": m_deref,
     "alloc::string::String::as_mut_vec": m_deref,
     "alloc::vec::Vec::as_slice": m_deref,
